@@ -374,7 +374,7 @@ def classify_entries(ctx, frame, entries):
 def run(ctx):
     _install(ctx)
     rng = ctx.rng("worlds")
-    target = ctx.quota(1500, 200000)
+    target = ctx.quota(4000, 200000)
     done = 0
     for _ in ctx.cases(10 ** 9):
         if done >= target:
